@@ -82,7 +82,7 @@ def showB : M Bool → String := showM b2s
 
 def isseqGenWith (f : Bytes → M Bool) (seed idx _size : Nat) : Case :=
   let file := isseqFile seed idx
-  let spec := file.length ≥ 8192 && Spec.isSeqPage (file.take 8192)
+  let spec := file.length ≥ 8192 && Spec.isSeqPage file
   { tags := [s!"spec={b2s spec}", (if file.length < 8192 then "len<8192" else if file.length == 8192 then "len=8192" else "len>8192")] ++
             (if spec then ["nt"] else []),
     model := showB (f file), spec := b2s spec, args := [hexRle file] }
